@@ -404,3 +404,24 @@ M('c03c-buffer-overwrites', 'C03', 'break', RS, "        memcpy(connp->out_buf +
 M('c03c-size-not-advanced', 'C03', 'break', RQ, "        memcpy(connp->in_buf + connp->in_buf_size, data, len);\n        connp->in_buf_size = newsize;", "        memcpy(connp->in_buf + connp->in_buf_size, data, len);\n        connp->in_buf_size = len;", 'C03.c')
 M('c03d-new-lookahead', 'C03', 'break', RQ, "        // Have we reached the end of the line?\n        if (connp->in_next_byte == LF) {\n            return htp_connp_REQ_LINE_complete(connp);", "        // Have we reached the end of the line?\n        if (connp->in_next_byte == LF && !(connp->in_current_read_offset < connp->in_current_len && connp->in_current_data[connp->in_current_read_offset] == ' ')) {\n            return htp_connp_REQ_LINE_complete(connp);", 'C03.d')
 M('c03e-rewind-to-consume', 'C03', 'break', RS, "    if (connp->out_current_read_offset < (int64_t)bytes_left) {\n        connp->out_current_read_offset=0;\n    } else {\n        connp->out_current_read_offset-=bytes_left;\n    }", "    connp->out_current_read_offset = connp->out_current_consume_offset;", 'C03.e')
+
+# ---------------- C14
+MP, UE = 'htp/htp_multipart.c', 'htp/htp_urlencoded.c'
+M('c14a-other-byte-no-release', 'C14', 'break', MP, "                        if (parser->cr_aside) {\n                            parser->handle_data(parser, (unsigned char *) &\"\\r\", 1, /* not a line */ 0);\n                            parser->cr_aside = 0;\n                        }\n                    }\n                } // while", "                        parser->cr_aside = 0;\n                    }\n                } // while", 'C14.a')
+M('c14a-fix-reverted', 'C14', 'break', MP, "                        if (parser->cr_aside) {\n                            parser->handle_data(parser, (unsigned char *) &\"\\r\", 1, /* not a line */ 0);\n                            parser->cr_aside = 0;\n                        }\n\n                        // Is this CR the last byte in the input buffer?", "                        // Is this CR the last byte in the input buffer?", 'C14.a')
+M('c14a-aside-data-mode-no-emit', 'C14', 'break', MP, "        if (parser->cr_aside) {\n            parser->handle_data(parser, (const unsigned char *)&\"\\r\", 1, /* not a line */ 0);\n            parser->cr_aside = 0;\n        }", "        parser->cr_aside = 0;", 'C14.a')
+M('c14b-header-pieces-not-cleared', 'C14', 'break', MP, "                if (line == NULL) return HTP_ERROR;\n                bstr_builder_clear(part->parser->part_header_pieces);", "                if (line == NULL) return HTP_ERROR;", 'C14.b')
+M('c14c-mismatch-skips-aside-in-line-mode', 'C14', 'break', MP, "                        // Process stored (buffered) data.\n                        htp_martp_process_aside(parser, /* no match */ 0);\n\n                        // Return back where data parsing left off.", "                        // Process stored (buffered) data.\n                        if (parser->current_part_mode != MODE_LINE) htp_martp_process_aside(parser, /* no match */ 0);\n\n                        // Return back where data parsing left off.", 'C14.c')
+M('c14c-tail-from-pos', 'C14', 'break', MP, "                bstr_builder_append_mem(parser->boundary_pieces, data + startpos, len - startpos);", "                bstr_builder_append_mem(parser->boundary_pieces, data + data_return_pos, len - data_return_pos);", 'C14.c')
+M('c14d-tail-includes-cr', 'C14', 'break', MP, "                parser->handle_data(parser, data + startpos, pos - startpos - parser->cr_aside, /* not a line */ 0);", "                parser->handle_data(parser, data + startpos, pos - startpos, /* not a line */ 0);", 'C14.d')
+M('c14d-strip-only-lf', 'C14', 'break', MP, "                        if ((dlen > 0) && (data[startpos + dlen - 1] == CR)) dlen--;\n", "", 'C14.d')
+M('c14e-param-value-from-name', 'C14', 'break', 'htp/htp_content_handlers.c', "            param->value = part->value;", "            param->value = part->name;", 'C14.e')
+
+# ---------------- C15
+M('c15a-value-splits-at-every-eq', 'C15', 'break', UE, "                if ((c == urlenp->argument_separator) || (c == -1)) {\n                    // Data from startpos to pos.\n                    htp_urlenp_add_field_piece(urlenp, data, startpos, pos, c);\n\n                    // If it's not the end of input, then it must be the end of this field.\n                    if (c != -1) {\n                        // Next state.\n                        startpos = pos + 1;\n                        urlenp->_state = HTP_URLENP_STATE_KEY;", "                if ((c == urlenp->argument_separator) || (c == '=') || (c == -1)) {\n                    // Data from startpos to pos.\n                    htp_urlenp_add_field_piece(urlenp, data, startpos, pos, c);\n\n                    // If it's not the end of input, then it must be the end of this field.\n                    if (c != -1) {\n                        // Next state.\n                        startpos = pos + 1;\n                        urlenp->_state = HTP_URLENP_STATE_KEY;", 'C15.a')
+M('c15a-restart-at-pos', 'C15', 'break', UE, "                        startpos = pos + 1;\n                        urlenp->_state = HTP_URLENP_STATE_KEY;\n                    }\n                }\n\n                pos++;\n\n                break;\n\n            default:", "                        startpos = pos;\n                        urlenp->_state = HTP_URLENP_STATE_KEY;\n                    }\n                }\n\n                pos++;\n\n                break;\n\n            default:", 'C15.a')
+M('c15b-emit-at-chunk-end', 'C15', 'break', UE, "    if ((last_char != -1) || (urlenp->_complete)) {       ", "    if ((last_char != -1) || (urlenp->_complete) || (urlenp->_state == HTP_URLENP_STATE_VALUE && endpos > startpos + 64)) {       ", 'C15.b')
+M('c15b-piece-not-stored-for-key', 'C15', 'break', UE, "        if ((data != NULL) && (endpos - startpos > 0)) {\n            bstr_builder_append_mem(urlenp->_bb, data + startpos, endpos - startpos);\n        }\n    }\n}", "        if ((data != NULL) && (endpos - startpos > 0) && (urlenp->_state == HTP_URLENP_STATE_VALUE)) {\n            bstr_builder_append_mem(urlenp->_bb, data + startpos, endpos - startpos);\n        }\n    }\n}", 'C15.b')
+M('c15c-finalize-order', 'C15', 'break', UE, "    urlenp->_complete = 1;\n    return htp_urlenp_parse_partial(urlenp, NULL, 0);", "    htp_status_t rc = htp_urlenp_parse_partial(urlenp, NULL, 0);\n    urlenp->_complete = 1;\n    return rc;", 'C15.c')
+M('c15c-value-not-decoded', 'C15', 'break', UE, "                htp_tx_urldecode_params_inplace(urlenp->tx, name);\n                htp_tx_urldecode_params_inplace(urlenp->tx, value);", "                htp_tx_urldecode_params_inplace(urlenp->tx, name);", 'C15.c')
+M('c15b-builder-not-cleared', 'C14', 'break', UE, "            if (field == NULL) return;\n\n            bstr_builder_clear(urlenp->_bb);", "            if (field == NULL) return;\n", 'C14.b', )
